@@ -711,7 +711,8 @@ fn expected_outcome(is_struct: bool, container_fields: Fields, variant_fields: O
         }
         // an empty struct variant `V {}` is treated like a unit struct unless the enum is
         // internally tagged (then it carries the tag property)
-        let internally = c("tag") && !c("content");
+        // (a per-variant `untagged` takes the tag property away again)
+        let internally = c("tag") && !c("content") && !v("untagged");
         if vf == Fields::Named0 && (v("rename_all") || c("rename_all_fields")) && !internally {
             return Some(false);
         }
